@@ -537,6 +537,118 @@ def rule_OW6(ctx, mod, E):
               ctx.where(mod, cp))
 
 
+def _what_guard(test, pol, par, w):
+    """Truth of one guard for what == w: True / False / None (unknown)."""
+    if isinstance(test, ast.Compare) and len(test.ops) == 1 and \
+            isinstance(test.left, ast.Name) and test.left.id == par:
+        c = test.comparators[0]
+        op = test.ops[0]
+        if isinstance(c, ast.Constant):
+            v = {ast.Eq: w == c.value, ast.NotEq: w != c.value}.get(type(op))
+        else:
+            lst = au.const_list(c)
+            v = None if lst is None else {
+                ast.In: w in lst, ast.NotIn: w not in lst}.get(type(op))
+        if v is not None:
+            return v if pol else not v
+    return None
+
+
+def rule_OW6_serial(ctx, mod, E):
+    """The computed flag and the synthetic data travel together through
+    to_dict/from_dict: a copy that is stripped of the synthetic data must not
+    carry `computed = True` (misfit would skip the forward computation and
+    sum NaNs to 0.0)."""
+    td = E.members['to_dict']
+    par = au.params(td)[1]
+    dom = set()
+    for n in ast.walk(td):
+        if isinstance(n, ast.Compare) and isinstance(n.left, ast.Name) and \
+                n.left.id == par:
+            c = n.comparators[0]
+            dom |= set([c.value] if isinstance(c, ast.Constant)
+                       else au.const_list(c) or [])
+    ctx.anchor({'plain', 'results', 'all', 'computed'} <= dom,
+               'to_dict(what) domain')
+    # where is the flag emitted / the synthetic data stripped
+    emits, strips = [], []
+    for n in ast.walk(td):
+        if isinstance(n, ast.Dict):
+            for k in n.keys:
+                if isinstance(k, ast.Constant) and k.value == 'computed':
+                    emits.append(n)
+        if isinstance(n, ast.Assign) and any(
+                isinstance(t, ast.Subscript) and isinstance(
+                    t.slice, ast.Constant) and t.slice.value == 'computed'
+                for t in n.targets):
+            emits.append(n)
+        if isinstance(n, ast.Delete):
+            lp = au.enclosing(n, ast.For)
+            keys = au.const_list(lp.iter) if lp is not None else None
+            if keys and 'synthetic' in keys or "'synthetic'" in ast.unparse(n):
+                strips.append(n)
+    ctx.anchor(emits and strips, 'computed flag / synthetic strip in to_dict')
+
+    def holds(node, w):
+        vals = [_what_guard(t, pol, par, w)
+                for t, pol in au.guards_of(node, td)]
+        vals = [v for v in vals if v is not None]
+        return all(vals)
+    for w in sorted(dom):
+        em = any(holds(n, w) for n in emits)
+        st = any(holds(n, w) for n in strips)
+        ctx.check('C12.OW6.serial', f"to_dict(what='{w}')", not (em and st),
+                  f"to_dict('{w}') removes the synthetic data but keeps the "
+                  'computed flag: the restored simulation returns misfit 0.0 '
+                  'without computing', ctx.where(mod, td),
+                  sample={'what': w, 'flag': em, 'synthetic_stripped': st})
+    fd = E.members['from_dict']
+    ok = has("if 'computed' in _x_.keys():\n    _o_._computed = "
+             "_x_.pop('computed')", fd) or \
+        has("_o_._computed = _x_.pop('computed', False)", fd)
+    for lp, b_ in find("for _n_ in _L_:\n    if _n_ in _x_.keys():\n"
+                       "        setattr(_o_, '_' + _n_, _x_.pop(_n_))", fd):
+        L = b_['_L_']
+        lst = au.const_list(L) if not isinstance(L, str) else None
+        if isinstance(L, str):
+            defs = [n.value for n in ast.walk(fd) if isinstance(n, ast.Assign)
+                    and ast.unparse(n.targets[0]) == L and
+                    n.lineno < lp.lineno]
+            lst = au.const_list(defs[-1]) if defs else None
+        if lst and 'computed' in lst:
+            ok = True
+    ctx.check('C12.OW6.serial', 'from_dict restores the flag only if stored',
+              ok, 'from_dict does not restore `_computed` from the stored '
+              'flag (default: not computed)', ctx.where(mod, fd))
+
+
+def rule_OW7(ctx, mod, E):
+    """Two data variables must never share memory: a store
+    `data[a] = data[b]` (no copy) makes later in-place `.loc[...] =` writes of
+    one overwrite the other."""
+    n = 0
+    for m in (mod, ctx.repo.mod('emg3d/surveys.py')):
+        for st in ast.walk(m.tree):
+            if not isinstance(st, ast.Assign):
+                continue
+            for t in st.targets:
+                if not (isinstance(t, ast.Subscript) and
+                        ast.unparse(t.value).split('.')[-1] in
+                        ('data', '_data') and
+                        ast.unparse(t.value).startswith('self')):
+                    continue
+                n += 1
+                v = st.value
+                bare = isinstance(v, (ast.Subscript, ast.Attribute)) and (
+                    '.data' in ast.unparse(v) or '._data' in ast.unparse(v))
+                ctx.check('C12.OW7.alias', f'{au.qualname(st)} '
+                          f'`{au.stext(st)[:60]}`', not bare,
+                          'a data variable is bound to another data variable '
+                          'without a copy; the two share memory',
+                          ctx.where(m, st))
+    ctx.floor('C12.OW7.alias', 8)
+
+
 def run(ctx):
     ctx.explanation = (
         'Effect analysis of class Simulation: item paths (data.synthetic/'
@@ -563,3 +675,5 @@ def run(ctx):
     rule_OW4(ctx, mod, E)
     rule_OW5(ctx, mod, E)
     rule_OW6(ctx, mod, E)
+    rule_OW6_serial(ctx, mod, E)
+    rule_OW7(ctx, mod, E)
